@@ -173,6 +173,13 @@ def run_case(case, env, res, tmpdir, state):
             image.read_from_file = case["rff"]
     method = case["method"]
     spec = "1.1" + alpha_spec + "+" + {"lines": "L", "whole": "W"}[method] + case.get("stylespec", "")
+    if case.get("redrawn") and source == "pil" and not case.get("frames") and not case.get("smooth"):
+        # the caller's PIL image is drawn on in place after a first render of the same
+        # instance (same size, transparency and method): the judged render transmits the
+        # image's pixels as they are now
+        format(image, spec)
+        pil.paste(pil.transpose(Image.ROTATE_180))
+        res.count("renders of an instance whose source was modified in place after an earlier render")
     if case.get("blend") is False:
         _, _, _, _, a_, sargs = image._check_format_spec(spec)
         out = image._renderer(image._render_image, a_, blend=False, **sargs)
@@ -472,6 +479,7 @@ def gen_random(rnd, persona):
             case["mode"] = rnd.choice(["RGB", "RGBA"])
         case["rff"] = rnd.choice([None, None, True, False])
     case["stylespec"] = "".join(sp)
+    case["redrawn"] = rnd.random() < 0.25
     if rnd.random() < 0.12:
         n = rnd.randint(2, 5)
         case.update(frames=n, visits=[rnd.randrange(n) for _ in range(rnd.randint(1, 4))], render_visits=rnd.random() < 0.7, file_fmt=rnd.choice(["GIF", "WEBP"]), source=rnd.choice(["pilfile", "file"]), mode="RGB", alpha=rnd.choice(["#", "", "#102030"]))
